@@ -62,7 +62,7 @@ def evidence(blk):
     if blk.current is not None:
         cur = set(blk.current)
         ev["stale"] = any(t not in cur for t in blk.all)
-    idx = {i for _, i, _ in blk.parts}
+    idx = {i for _, ix, _ in blk.parts for i in ix}
     ev["lost_bits"] = any(b not in idx for _, bits in blk.leaves for b in bits)
     strs = {t: s for t, _, s in blk.parts}
     if not blk.full and blk.split is not None:
@@ -141,7 +141,10 @@ def judge_answer(st, ans, sig, logic, decls, blk):
             else:
                 rec["viol"].append(("unknown-name-in-core", "the core lists %s, which is not a name of the script" % n, dict(name=n)))
         A = denoted + unnamed
-        v, d = cc.judge_unsat(sig, logic, decls, A)
+        if "name-check:undecided" in rec["labels"]:
+            v, d = "skipped(name check undecided)", None
+        else:
+            v, d = cc.judge_unsat(sig, logic, decls, A)
         rec["labels"].append("unsat:" + v)
         if v in ("refuted-certified", "refuted-oracles"):
             rec["viol"].append(("core-satisfiable:named:%s" % cause_sat(),
